@@ -121,7 +121,7 @@ func (g *gen) block(region string) Block {
 		if g.rng.Intn(6) == 0 {
 			// a large block whose malformed transaction comes late (any internal chunking of the write batch
 			// would have applied the earlier chunks already): sizes around powers of two and beyond
-			n = []int{63, 64, 127, 128, 255, 256, 257, 300, 511, 512, 513, 700, 1023, 1025}[g.rng.Intn(14)]
+			n = []int{63, 64, 127, 128, 255, 256, 257, 300, 511, 512, 513, 700, 1023, 1025, 2047, 2048, 2049, 3000, 4097, 5000, 10001}[g.rng.Intn(21)]
 		}
 		for i := 0; i < n; i++ {
 			b.Txs = append(b.Txs, ordinaryKeys[g.rng.Intn(len(ordinaryKeys))]+"="+g.fresh())
